@@ -4,6 +4,7 @@ import Faithful.Ties.Basic
 import Faithful.Ties.C05
 import Faithful.Ties.BkHas
 import Faithful.Ties.BkOpen
+import Faithful.Properties.C05
 /-!
 C05 end to end, on the code in the tree: for every byte string, if `bucketteer.NewReader` succeeds then every
 `Has(sig)` on the Reader it returned is `hasSpec` over the content of the file behind the header `readHeader` found.
@@ -282,5 +283,196 @@ theorem gen_newReader_then_has (xx : List UInt8 → UInt64) (l : List UInt8) (fu
       have hA := section_content_agree l hsz (by omega) hle (by omega)
       exact gen_bkReaderHas_agree xx _ (l.drop hsz) T (C10.ofKvs m) a b rest fuel hA hT.1
         (by rw [List.length_drop]; omega) hf
+
+/-! ### `hdrSpec` is the header part of the model's `BK.openB` -/
+
+/-- for a non-empty file whose size field does not exceed the largest header the format can express, `hdrSpec` = the
+    model's `openB .v2` (table, metadata, content offset) -/
+theorem hdrSpec_eq_openB (l : List UInt8) (hne : l ≠ []) (hmax : 4 ≤ l.length → B.unle (l.take 4) ≤ 785945) :
+    hdrSpec l = (BK.openB .v2 l.toArray).map (fun r => (r.table, r.metaKVs, r.base)) := by
+  unfold hdrSpec BK.openB
+  have hpos : 0 < l.length := by
+    cases l with
+    | nil => exact absurd rfl hne
+    | cons _ _ => simp
+  have h1 : 0 + 1 ≤ l.length := by omega
+  rw [BK.rd_toArray, if_pos h1]
+  simp only
+  rw [BK.rd_toArray]
+  by_cases h4 : l.length < 4
+  · have h4n : ¬ (0 + 4 ≤ l.length) := by omega
+    rw [if_pos h4, if_neg h4n]
+    rfl
+  · have h4' : 0 + 4 ≤ l.length := by omega
+    rw [if_neg h4, if_pos h4']
+    simp only
+    have hsl : B.slice l 0 4 = l.take 4 := by unfold B.slice; simp
+    rw [hsl]
+    have hm := hmax (by omega)
+    generalize B.unle (l.take 4) = hs at hm ⊢
+    have hnb : ¬ (hs > 785945) := by omega
+    rw [if_neg hnb, BK.rd_toArray]
+    by_cases hshort : l.length < 4 + hs
+    · have hsn : ¬ (4 + hs ≤ l.length) := by omega
+      rw [if_pos hshort, if_neg hsn]
+      rfl
+    · have hsp : 4 + hs ≤ l.length := by omega
+      rw [if_neg hshort, if_pos hsp]
+      simp only
+      have hb : B.slice l 4 hs = (l.drop 4).take hs := rfl
+      rw [hb]
+      generalize (l.drop 4).take hs = buf
+      have hmg : BK.magicOf .v2 = magicL := rfl
+      have hver : BK.versionOf .v2 = 2 := rfl
+      rw [hmg, hver]
+      by_cases h8 : buf.length < 8
+      · have hne8 : buf.take 8 ≠ magicL := by
+          intro hc
+          have := congrArg List.length hc
+          rw [List.length_take] at this
+          unfold magicL at this
+          simp at this
+          omega
+        rw [if_pos h8, if_pos hne8]
+        rfl
+      · rw [if_neg h8]
+        by_cases hmagic : buf.take 8 ≠ magicL
+        · rw [if_pos hmagic, if_pos hmagic]; rfl
+        · rw [if_neg hmagic, if_neg hmagic]
+          have hl8 : ((buf.drop 8).take 8).length < 8 ↔ (buf.drop 8).length < 8 := by
+            rw [List.length_take]; omega
+          by_cases hv : (buf.drop 8).length < 8
+          · rw [if_pos hv, if_pos (hl8.mpr hv)]; rfl
+          · rw [if_neg hv, if_neg (fun h => hv (hl8.mp h))]
+            by_cases hver2 : B.unle ((buf.drop 8).take 8) ≠ 2
+            · rw [if_pos hver2, if_pos hver2]; rfl
+            · rw [if_neg hver2, if_neg hver2]
+              cases hpm : BK.parseMeta .v2 (buf.drop 16) with
+              | none => rfl
+              | some q =>
+                obtain ⟨m, r2⟩ := q
+                simp only
+                have hl8b : ((r2.take 8).length < 8) ↔ (r2.length < 8) := by
+                  rw [List.length_take]; omega
+                by_cases hn8 : r2.length < 8
+                · rw [if_pos hn8, if_pos (hl8b.mpr hn8)]; rfl
+                · rw [if_neg hn8, if_neg (fun h => hn8 (hl8b.mp h))]
+                  have hnp : BK.numPrefixes = 65536 := rfl
+                  rw [hnp]
+                  cases BK.parseTable (B.unle (r2.take 8)) (r2.drop 8) (Array.replicate 65536 none) with
+                  | none => rfl
+                  | some t => rfl
+
+/-- **the whole reader path against the model the C05 theorems are stated about**: on every byte string (with a header size
+    field the format can express) the translated `NewReader` succeeds exactly when the model's `openB .v2` does, and then
+    every translated `Has` answers what the model's `hasB` answers on that file — so `has_bytes_agree`, `seal_has_bytes`
+    and `has_only_if_bytes` (Properties/C05) speak about the code in the tree -/
+theorem gen_open_has_eq_model (xx : List UInt8 → UInt64) (l : List UInt8) (fuel : Nat) (hf : 2 ^ 32 ≤ fuel)
+    (hl : l.length < 2 ^ 61) (hmax : 4 ≤ l.length → B.unle (l.take 4) ≤ 785945) :
+    match BK.openB .v2 l.toArray with
+    | none => ∃ e, e ≠ Go.Error.nil ∧ bkNewReader fuel (memRd l) = .ok (Bucketteer_Reader.zero, e)
+    | some r => ∃ rdr, bkNewReader fuel (memRd l) = .ok (rdr, Go.Error.nil) ∧
+        ∀ (a b : UInt8) (rest : List UInt8),
+          match BK.hasB l.toArray r (BK.prefixOf [a, b]) (xx (a :: b :: rest)).toNat with
+          | .yes => bkReaderHas xx fuel rdr (a :: b :: rest) = .ok (true, Go.Error.nil)
+          | .no => bkReaderHas xx fuel rdr (a :: b :: rest) = .ok (false, Go.Error.nil)
+          | .err => ∃ e, e ≠ Go.Error.nil ∧ bkReaderHas xx fuel rdr (a :: b :: rest) = .ok (false, e) := by
+  have hspec := gen_bkNewReader_eq_spec l fuel (by omega) (by omega)
+  by_cases hne : l = []
+  · subst hne
+    rw [if_pos rfl] at hspec
+    exact hspec
+  · rw [if_neg hne, hdrSpec_eq_openB l hne hmax] at hspec
+    have hv2 : ∀ r, BK.openB .v2 l.toArray = some r → r.fmt = .v2 := by
+      intro r hr
+      unfold BK.openB at hr
+      repeat' split at hr
+      all_goals first
+        | (simp only [Option.some.injEq] at hr; rw [← hr])
+        | (cases hr)
+    cases ho : BK.openB .v2 l.toArray with
+    | none =>
+      rw [ho] at hspec
+      exact hspec
+    | some r =>
+      rw [ho] at hspec
+      simp only [Option.map_some] at hspec
+      obtain ⟨T, hT, he⟩ := hspec
+      have hsome : hdrSpec l = some (r.table, r.metaKVs, r.base) := by
+        rw [hdrSpec_eq_openB l hne hmax, ho]; rfl
+      obtain ⟨h4, hle⟩ := hdrSpec_some l _ _ _ hsome
+      refine ⟨_, he, ?_⟩
+      intro a b rest
+      have hA := section_content_agree l r.base (by omega) hle (by omega)
+      have hp : BK.prefixOf [a, b] < 65536 := by
+        unfold BK.prefixOf; have := a.toNat_lt; have := b.toNat_lt; simp; omega
+      have := gen_bkReaderHas_agree xx _ (l.drop r.base) T (C10.ofKvs r.metaKVs) a b rest fuel hA hT.1
+        (by rw [List.length_drop]; omega) hf
+      rw [BkHas.hasSpec_eq_hasB l r T _ _ fuel (hv2 r ho) hT hp hle hf] at this
+      exact this
+
+/-! ### the writer's file: `Seal` (model `BK.encode`) → the translated reader -/
+
+theorem metaBody_length_le (m : BK.MetaKVs) (h : ∀ kv ∈ m, kv.1.length ≤ 255 ∧ kv.2.length ≤ 255) :
+    (m.flatMap fun kv => (UInt8.ofNat kv.1.length :: kv.1) ++ (UInt8.ofNat kv.2.length :: kv.2)).length ≤ 512 * m.length := by
+  induction m with
+  | nil => simp
+  | cons kv r ih =>
+    have h1 := h kv (by simp)
+    have h2 := ih (fun x hx => h x (by simp [hx]))
+    simp only [List.flatMap_cons, List.length_append, List.length_cons] at h2 ⊢
+    omega
+
+/-- the version-2 metadata block of a valid `Meta` is at most 1 + 255·512 bytes: the header-size guard of
+    `readHeaderSize` (785945) is never hit by a file the writer produced -/
+theorem metaBytes_v2_le (m : BK.MetaKVs) (hm : BK.metaOk .v2 m) : (BK.metaBytes .v2 m).length ≤ 130561 := by
+  obtain ⟨hn, hkv⟩ := hm
+  have := metaBody_length_le m hkv
+  unfold BK.metaBytes
+  simp only [List.length_cons]
+  omega
+
+/-- **C05 end to end on the translated reader**: on the file the sealing writer produces (model `BK.encode .v2`), the
+    translated `NewReader` succeeds and every translated `Reader.Has(sig)` returns, with a nil error, exactly the
+    verdict of the abstract set (`hasA` over the sealed buckets) — for every signature list written, every valid
+    metadata, every hash function and every signature queried -/
+theorem gen_has_on_sealed (xx : List UInt8 → UInt64) (h : BK.Sig → Nat) (m : BK.MetaKVs) (sigs : List BK.Sig)
+    (fuel : Nat) (hf : 2 ^ 32 ≤ fuel)
+    (h64 : ∀ s, h s < 2 ^ 64) (hm : BK.metaOk .v2 m)
+    (hsmall : ∀ p, (BK.cleanSet ((BK.putAll h sigs).getD p [])).length < 2 ^ 29)
+    (hlen : (BK.encode .v2 m (BK.sealA .v2 (BK.putAll h sigs))).length < 2 ^ 61)
+    (a b : UInt8) (rest : List UInt8) (hx : (xx (a :: b :: rest)).toNat = h (a :: b :: rest)) :
+    ∃ rdr, bkNewReader fuel (memRd (BK.encode .v2 m (BK.sealA .v2 (BK.putAll h sigs)))) = .ok (rdr, Go.Error.nil) ∧
+      bkReaderHas xx fuel rdr (a :: b :: rest) =
+        .ok (BK.hasA (BK.sealA .v2 (BK.putAll h sigs)) (BK.prefixOf (a :: b :: rest)) (h (a :: b :: rest)), Go.Error.nil) := by
+  have hmb := metaBytes_v2_le m hm
+  obtain ⟨r, hopen, hhas⟩ := _root_.C05.has_bytes_agree .v2 h m sigs h64 hm (by omega) hsmall
+  generalize hE : BK.encode .v2 m (BK.sealA .v2 (BK.putAll h sigs)) = l at *
+  have hmax : 4 ≤ l.length → B.unle (l.take 4) ≤ 785945 := by
+    intro _
+    rw [← hE]
+    unfold BK.encode BK.headerBytes
+    have hn := BK.entries_length_le .v2 (BK.sealA .v2 (BK.putAll h sigs))
+    have hr := BK.headerRest_length .v2 m (BK.entries .v2 (BK.sealA .v2 (BK.putAll h sigs)))
+    simp only [BK.numPrefixes] at hn
+    have hlt : (BK.headerRest .v2 m (BK.entries .v2 (BK.sealA .v2 (BK.putAll h sigs)))).length < 256 ^ 4 := by omega
+    rw [List.append_assoc, List.take_left' (B.le_length 4 _), B.unle_le_of_lt _ _ hlt]
+    omega
+  have hmod := gen_open_has_eq_model xx l fuel hf hlen hmax
+  rw [hopen] at hmod
+  obtain ⟨rdr, hnr, hall⟩ := hmod
+  refine ⟨rdr, hnr, ?_⟩
+  have h1 := hall a b rest
+  have h2 := hhas (a :: b :: rest)
+  have hp : BK.prefixOf (a :: b :: rest) = BK.prefixOf [a, b] := rfl
+  rw [hp] at h2 ⊢
+  rw [hx, h2] at h1
+  by_cases hh : BK.hasA (BK.sealA .v2 (BK.putAll h sigs)) (BK.prefixOf [a, b]) (h (a :: b :: rest)) = true
+  · rw [if_pos hh] at h1
+    rw [hh]; exact h1
+  · rw [if_neg hh] at h1
+    have : BK.hasA (BK.sealA .v2 (BK.putAll h sigs)) (BK.prefixOf [a, b]) (h (a :: b :: rest)) = false := by
+      simpa using hh
+    rw [this]; exact h1
 
 end GoTies.BkEnd
